@@ -10,6 +10,7 @@
   py2coq.py functions  <repo> <out.v>   functions.py combinators over abstract operands (graceful fallback per method)
   py2coq.py mfdeviceset <repo> <out.v>  mfdeviceset.py: cost / deriv / hess / project / constructor over an abstract wrapped device
   py2coq.py storage    <repo> <out.v>   sdevice.py: deep_damage_at_deriv / charge_costs_deriv / deriv (graceful fallback per method)
+  py2coq.py constraints <repo> <out.v>  the `constraints` properties (closure lists) of device / sdevice / deviceset / subbalanced / mf / tworatio
   py2coq.py projection <repo> <out.v>   projection/projection.py: every region method incl. the Dykstra loop (graceful fallback per method)
 
 Anything outside the whitelist raises Unsupported naming the file, line and node: the caller treats that
@@ -265,6 +266,9 @@ def main(argv):
     elif what == 'storage':
       from sdevice_tx import gen_storage
       text = gen_storage(repo)
+    elif what == 'constraints':
+      from constraints_tx import gen_constraints
+      text = gen_constraints(repo)
     elif what == 'projection':
       from stmt_tx import gen_projection
       text = gen_projection(repo)
